@@ -365,6 +365,9 @@ class Esc:
                     return [], 'asyncio.Future.' + f.attr
                 if f.attr == 'decode' and isinstance(f.value, ast.Call) and getattr(f.value.func, 'id', '') == 'bytes':
                     return [], 'bytes.decode'
+                if isinstance(f.value, ast.Name) and f.value.id in ('int', 'str', 'bytes', 'bytearray', 'dict', 'list') \
+                        and f.attr in ('from_bytes', 'to_bytes', 'join', 'fromkeys', 'maketrans'):
+                    return [], 'safe'
                 if f.attr == 'readexactly':
                     return [], 'asyncio.StreamReader.readexactly'
                 if f.attr in ('read', 'readline', 'readuntil') and 'reader' in ast.unparse(f.value):
@@ -682,6 +685,9 @@ class Esc:
                 if is_nullable(s.iter):
                     emit('TypeError', f'{path}:{s.lineno} iteration over nullable {ast.unparse(s.iter)}', hs, s.lineno)
                 et = elem_type_of(s.iter)
+                for tn in ast.walk(s.target):
+                    if isinstance(tn, ast.Name):
+                        nullable_vars.pop(tn.id, None)
                 if et and isinstance(s.target, ast.Name):
                     env[s.target.id] = et
                 if isinstance(s.iter, ast.Call) and isinstance(s.iter.func, ast.Attribute) \
